@@ -293,8 +293,23 @@ def r3_reset_complete(ctx, rid: str = "C15.R3") -> None:
         loc = f"{ap.module.relpath}:{ap.node.lineno}"
         fresh = [s for s in stores if _is_fresh(prog, ap, s.value)]
         nodes = [x for s in fresh for x in cfg.nodes_of(s)]
+        # the same reset done by a helper method of the pipeline that apply() calls before the loop (self._reset…())
+        helper_hit = None
+        for hc in walk_no_nested(ap.node):
+            if isinstance(hc, ast.Expr) and isinstance(hc.value, ast.Call) and isinstance(hc.value.func, ast.Attribute) and isinstance(hc.value.func.value, ast.Name) \
+                    and hc.value.func.value.id == "self" and not hc.value.args:
+                hm = prog.lookup_method(pq, hc.value.func.attr)
+                if hm is None:
+                    continue
+                hst = [x for x in hm.node.body if isinstance(x, (ast.Assign, ast.AnnAssign)) and any(
+                    isinstance(t, ast.Attribute) and t.attr == name and isinstance(t.value, ast.Name) and t.value.id == "self"
+                    for t in (x.targets if isinstance(x, ast.Assign) else [x.target]))]  # top-level statements of the helper only: unconditional
+                if hst and _is_fresh(prog, hm, hst[0].value) and all(cfg.must_pass(ln, cfg.nodes_of(hc)) for ln in loop_nodes):
+                    helper_hit = (hm, hst[0])
         if nodes and all(cfg.must_pass(ln, nodes) for ln in loop_nodes):
             r.ok(rid, ap.qual, f"self.{name} = {unparse(fresh[0].value)} before the item loop", f"{ap.module.relpath}:{fresh[0].lineno}")
+        elif helper_hit is not None:
+            r.ok(rid, ap.qual, f"self.{name} = {unparse(helper_hit[1].value)} in {helper_hit[0].name}(), called unconditionally before the item loop", f"{helper_hit[0].module.relpath}:{helper_hit[1].lineno}")
         else:
             why = "is not re-initialised" if not stores else ("is re-initialised with a non-fresh object" if not fresh else "is not re-initialised on every path before the first item")
             r.violation(rid, ap.qual, f"reset of self.{name}",
